@@ -2193,10 +2193,7 @@ void Node::handle_transport_message(const network::TransportMessage& message) {
 std::optional<network::SessionManager::HandshakeAcceptance> Node::handle_transport_handshake(
     const PeerId& peer_id,
     const protocol::TransportHandshakePayload& payload) {
-    if (!network::KeyExchange::validate_public(payload.public_identity)) {
-        return std::nullopt;
-    }
-
+    // An invalid public key is rejected (and the claimed peer penalised) by perform_handshake() below.
     const auto requested_version = is_message_version_supported(payload.requested_version)
                                        ? payload.requested_version
                                        : preferred_message_version();
